@@ -483,6 +483,7 @@ class Engine(Interp):
                     # an array built in place ([x; n]): it gets an identity of its own (the place it is built in)
                     v = ('oarr', ('rep', fid, stmt['place']['local']), v[2])
                     s.arrinv.pop(v[1], None)
+                    s.ghost.pop(('arrfill', v[1]), None)
                 if v[0] == 'opq' and not stmt['place']['proj']:
                     # an opaque value (e.g. an element loaded from a local array of plain data) stored into a
                     # local of a plain-data type: from here on it is an unknown value OF THAT TYPE
@@ -1234,6 +1235,12 @@ class Engine(Interp):
                 ix = [i for i, f in real if f['ty'].get('k') == 'prim' and f['ty']['name'] == 'usize']
                 if len(sl) == 1 and len(ix) == 1:
                     res = (sl[0], ix[0], bool(fields[sl[0]]['ty']['mut']))
+            elif len(real) == 1:
+                # struct { rest: &[MaybeUninit<_>] }: the not-yet-yielded slots as a slice that is re-sliced on
+                # every step (split_first / [1..]): its own bounds are the cursor
+                i, f = real[0]
+                if f['ty'].get('k') == 'ref' and f['ty']['to'].get('k') == 'slice' and ty_is_mu(f['ty']['to']['elem']):
+                    res = (i, None, bool(f['ty']['mut']))
         self._cursor_structs[path] = res
         return res
 
@@ -1244,6 +1251,11 @@ class Engine(Interp):
             return None
         cs = self.cursor_struct(v[1])
         if cs is None:
+            return None
+        if cs[1] is None:
+            r = v[3][cs[0]]
+            if r[0] == 'ref' and r[2][0] == 'slice':
+                return ('sliceit', r[2][1], r[2][2], r[2][3], cs[2])
             return None
         r, nx = v[3][cs[0]], v[3][cs[1]]
         if r[0] == 'ref' and r[2][0] == 'slice' and nx[0] == 'int':
